@@ -829,6 +829,24 @@ static void run_incarnation(rng& r, rng& q, int inc, int force_style)
                 check_quiet(eb, db);
             }
         }
+        if (stop_suspended && smode != 5)
+        {
+            // The unchanged tree has a (listed) lost wake-up when stop()'s notifications land between a worker's store of
+            // `sleeping` and its condition-variable wait (finding C05-stop-suspended-lostwake, reproduced by the directed probe
+            // smode 5).  suspend() returns as soon as the state words say `sleeping`, i.e. possibly inside that window, and a
+            // generic run hit it once in a few hundred check runs.  Generic runs therefore enter stop() only once every other
+            // thread of the process is blocked (two consecutive samples of /proc, bounded) - the window is then closed.
+            int const self = int(syscall(SYS_gettid));
+            int calm = 0;
+            for (int i = 0; i < 200 && calm < 2; ++i)
+            {
+                bool all_blocked = true;
+                for (auto const& kv : read_threads())
+                    if (kv.first != self && kv.second.state != 'S') all_blocked = false;
+                calm = all_blocked ? calm + 1 : 0;
+                if (calm < 2) std::this_thread::sleep_for(std::chrono::microseconds(500));
+            }
+        }
         e2::note("x.stop.enter", nullptr, stop_suspended ? 1 : 0);
         {
             blocking b("pika::stop()");
